@@ -1,11 +1,11 @@
 package main
 
 import (
-	"os"
 	"fmt"
 	"go/ast"
 	"go/token"
 	"go/types"
+	"os"
 	"path/filepath"
 	"sort"
 	"strings"
@@ -70,6 +70,7 @@ type Ctx struct {
 	dimsGateMemo     map[string]dimsGateRes
 	initMemo         *initState
 	recMemo          map[string]recRes
+	decodeMemo       *decodeTableRes
 	expandHelpers    bool // successTerms follows unexported helpers that compute the output (R16)
 	d6Witness        string
 	eff              *effects
